@@ -1,2 +1,158 @@
+/-
+  Spydr.Names.Lemmas — character facts, the `_sdn_N_` suffix, `lengthFix`, `charsFix`, `bump`,
+  and the shape invariant (`Good`) that every candidate identifier satisfies.
+-/
 import Spydr.Names.Model
 import Spydr.Names.Spec
+
+namespace Spydr.Names
+
+/-! ### characters -/
+
+theorem toLower_cases (c : Char) :
+    (c.isUpper = false ∧ c.toLower = c) ∨
+    (c.isUpper = true ∧ c.toLower.toNat = c.toNat + 32 ∧ 65 ≤ c.toNat ∧ c.toNat ≤ 90) := by
+  simp only [Char.toLower, Char.isUpper]
+  split <;> rename_i h
+  · right
+    simp only [ge_iff_le, UInt32.le_iff_toNat_le, Char.toNat] at h ⊢
+    simp only [seval] at h
+    refine ⟨by simpa [UInt32.le_iff_toNat_le] using h, ?_, h.1, h.2⟩
+    simp only [UInt32.toNat_add, seval]
+    omega
+  · left
+    exact ⟨by simpa using h, rfl⟩
+
+theorem isAlpha_iff (c : Char) :
+    c.isAlpha = true ↔ (65 ≤ c.toNat ∧ c.toNat ≤ 90) ∨ (97 ≤ c.toNat ∧ c.toNat ≤ 122) := by
+  simp [Char.isAlpha, Char.isUpper, Char.isLower, UInt32.le_iff_toNat_le]
+
+theorem isDigit_iff (c : Char) : c.isDigit = true ↔ (48 ≤ c.toNat ∧ c.toNat ≤ 57) := by
+  simp [Char.isDigit, UInt32.le_iff_toNat_le]
+
+theorem isUpper_iff (c : Char) : c.isUpper = true ↔ (65 ≤ c.toNat ∧ c.toNat ≤ 90) := by
+  simp [Char.isUpper, UInt32.le_iff_toNat_le]
+
+theorem char_eq_iff_toNat (c d : Char) : c = d ↔ c.toNat = d.toNat := by
+  constructor
+  · rintro rfl; rfl
+  · intro h; exact Char.ext (UInt32.toNat_inj.mp h)
+
+theorem toLower_isAlpha (c : Char) : c.toLower.isAlpha = c.isAlpha := by
+  rcases toLower_cases c with ⟨_, h⟩ | ⟨_, h, h1, h2⟩
+  · rw [h]
+  · rw [Bool.eq_iff_iff, isAlpha_iff, isAlpha_iff]; omega
+
+theorem toLower_isDigit (c : Char) : c.toLower.isDigit = c.isDigit := by
+  rcases toLower_cases c with ⟨_, h⟩ | ⟨_, h, h1, h2⟩
+  · rw [h]
+  · rw [Bool.eq_iff_iff, isDigit_iff, isDigit_iff]; omega
+
+theorem toLower_eq_underscore (c : Char) : c.toLower = '_' ↔ c = '_' := by
+  rcases toLower_cases c with ⟨_, h⟩ | ⟨_, h, h1, h2⟩
+  · rw [h]
+  · rw [char_eq_iff_toNat, char_eq_iff_toNat]; simp only [Char.reduceToNat]; omega
+
+theorem toLower_eq_amp (c : Char) : c.toLower = '&' ↔ c = '&' := by
+  rcases toLower_cases c with ⟨_, h⟩ | ⟨_, h, h1, h2⟩
+  · rw [h]
+  · rw [char_eq_iff_toNat, char_eq_iff_toNat]; simp only [Char.reduceToNat]; omega
+
+theorem toLower_not_upper (c : Char) : c.toLower.isUpper = false := by
+  rcases toLower_cases c with ⟨h0, h⟩ | ⟨_, h, h1, h2⟩
+  · rw [h]; exact h0
+  · rw [Bool.eq_false_iff]; intro hh; rw [isUpper_iff] at hh; omega
+
+theorem toLower_of_not_upper (c : Char) (h : c.isUpper = false) : c.toLower = c := by
+  rcases toLower_cases c with ⟨_, h'⟩ | ⟨h', _⟩
+  · exact h'
+  · rw [h] at h'; cases h'
+
+theorem isDigit_not_upper (c : Char) (h : c.isDigit = true) : c.isUpper = false := by
+  rw [Bool.eq_false_iff]; intro hh; rw [isUpper_iff] at hh; rw [isDigit_iff] at h; omega
+
+theorem isDigit_ne_underscore (c : Char) (h : c.isDigit = true) : c ≠ '_' := by
+  rintro rfl; revert h; decide
+
+/-- characters allowed after the first one: `[0-9A-Za-z_]` -/
+def okChar (c : Char) : Bool := c.isAlphanum || c == '_'
+
+theorem okChar_sub (c : Char) : okChar (sub c) = true := by
+  unfold okChar sub; split <;> simp_all
+
+theorem okChar_toLower (c : Char) : okChar c.toLower = okChar c := by
+  unfold okChar Char.isAlphanum
+  rw [toLower_isAlpha, toLower_isDigit]
+  congr 1
+  rw [Bool.eq_iff_iff]; simp [toLower_eq_underscore]
+
+theorem okChar_of_isDigit (c : Char) (h : c.isDigit = true) : okChar c = true := by
+  simp [okChar, Char.isAlphanum, h]
+
+theorem isLetter_eq (c : Char) : Spec.isLetter c = c.isAlpha := by
+  simp only [Spec.isLetter, Char.isAlpha, Char.isUpper, Char.isLower, Char.toNat, ge_iff_le,
+    UInt32.le_iff_toNat_le]
+  rw [Bool.or_comm]
+  simp [Bool.decide_and]
+
+theorem idChar_eq (c : Char) : Spec.idChar c = okChar c := by
+  simp only [Spec.idChar, okChar, isLetter_eq, Char.isAlphanum, Char.isDigit, Char.toNat, ge_iff_le,
+    UInt32.le_iff_toNat_le]
+
+theorem foldChar_eq (c : Char) : Spec.foldChar c = c.toLower := by
+  unfold Spec.foldChar
+  rcases toLower_cases c with ⟨h0, h⟩ | ⟨h0, h, h1, h2⟩
+  · rw [h, if_neg]
+    intro hh
+    have : c.isUpper = true := (isUpper_iff c).mpr (by simpa using hh)
+    rw [h0] at this; cases this
+  · rw [if_pos (by simpa using ⟨h1, h2⟩)]
+    rw [char_eq_iff_toNat, h]
+    have : (c.toNat + 32).isValidChar := by left; omega
+    simp [Char.ofNat, this, Char.ofNatAux]
+    omega
+
+theorem ciEq_iff (a b : Str) : Spec.ciEq a b = true ↔ lower a = lower b := by
+  have : ∀ s : Str, s.map Spec.foldChar = lower s := by
+    intro s; unfold lower; congr 1; funext c; exact foldChar_eq c
+  simp [Spec.ciEq, this]
+
+/-! ### no upper-case letters -/
+
+def NoUpper (s : Str) : Prop := ∀ c ∈ s, c.isUpper = false
+
+theorem noUpper_lower (s : Str) : NoUpper (lower s) := by
+  intro c hc
+  simp only [lower, List.mem_map] at hc
+  obtain ⟨d, _, rfl⟩ := hc
+  exact toLower_not_upper d
+
+theorem lower_of_noUpper {s : Str} (h : NoUpper s) : lower s = s := by
+  unfold lower
+  conv => rhs; rw [← List.map_id s]
+  apply List.map_congr_left
+  intro c hc
+  exact toLower_of_not_upper c (h c hc)
+
+theorem NoUpper.append {s t : Str} (hs : NoUpper s) (ht : NoUpper t) : NoUpper (s ++ t) := by
+  intro c hc
+  rcases List.mem_append.mp hc with h | h
+  · exact hs c h
+  · exact ht c h
+
+theorem NoUpper.take {s : Str} (hs : NoUpper s) (n : Nat) : NoUpper (s.take n) :=
+  fun c hc => hs c (List.mem_of_mem_take hc)
+
+theorem NoUpper.drop {s : Str} (hs : NoUpper s) (n : Nat) : NoUpper (s.drop n) :=
+  fun c hc => hs c (List.mem_of_mem_drop hc)
+
+theorem noUpper_of_digits {s : Str} (h : ∀ c ∈ s, c.isDigit = true) : NoUpper s :=
+  fun c hc => isDigit_not_upper c (h c hc)
+
+theorem noUpper_sdnPre : NoUpper sdnPre := by
+  intro c hc; simp only [sdnPre, List.mem_cons, List.not_mem_nil, or_false] at hc
+  rcases hc with rfl | rfl | rfl | rfl | rfl <;> decide
+
+theorem lower_length (s : Str) : (lower s).length = s.length := by simp [lower]
+
+end Spydr.Names
